@@ -25,7 +25,7 @@ def handle(ctx, events, rejects):
 def run(ctx):
     ctx.cov["rule"] = ("fund = Tx.Fund driven by a scripted, recording UTXOGetterFunc: every supplier history of MC_Fund (<= 3 replies quick, <= 4 "
                        "thorough, over empty/one/many-UTXO batches, unsupported scripts, NoUTXO, error) x starting transactions x quotes, plus "
-                       "random histories; judged by Fund!FundRun: the exact sequence of deficits passed to the supplier, the outcome, and the "
+                       "random histories, and one run crossing 65536 inputs; judged by Fund!FundRun: the exact sequence of deficits passed to the supplier, the outcome, and the "
                        "resulting inputs (order, txid tag, vout, value, script kind, final sequence) and untouched outputs; distinct = (pre, quote, history)")
     r = ctx.tlc("MC_Fund.tla", ctx.pick("MC_Fund.cfg", "MC_Fund_t.cfg"))
     cases = [o for o in r["emitted"] if o.get("k") == "case"]
@@ -34,6 +34,11 @@ def run(ctx):
     ctx.cov["tlc_generated_cases_replayed"] = len(cases)
     events = B.run_driver(ctx, "fund", ctx.pick(1500, 250000), cases)
     rejects = B.validate(ctx, events)
+    # one funding run whose input count crosses 65535/65536 (a 21 MB event: validated on its own)
+    big = B.run_driver(ctx, "fund", 0, None, extra=["-huge"])
+    off = len(events)
+    rejects += [(off + i, why) for i, why in vf.validate_events(ctx, "Trace_Builder.tla", "Trace_Builder.cfg", big, shards=1, heap="12g")]
+    events += big
     handle(ctx, events, rejects)
     fe = [e for e in events if e["ev"] == "fund"]
     ctx.cov["traces_validated_against_impl"] += len(events)
